@@ -69,6 +69,13 @@ Proof.
   - cbn. destruct v0; reflexivity.
 Qed.
 
+Lemma mark_ops_nz ops : ops_nz ops = true -> ops_nz (mark_ops ops) = true.
+Proof.
+  unfold ops_nz, mark_ops. induction ops as [|o ops IH]; intros H; [reflexivity|].
+  cbn [forallb] in H. apply andb_prop in H as [Ho H]. cbn [flat_map]. rewrite forallb_app, (IH H), andb_true_r.
+  destruct o; cbn [forallb]; [rewrite Ho|]; reflexivity.
+Qed.
+
 Lemma custom_rh_nz k : ops_nz (custom_rh k) = true.
 Proof.
   unfold custom_rh, ops_nz. cbn [forallb]. destruct (Z.eqb (290 + Z.of_nat k) 0) eqn:E; [apply Z.eqb_eq in E; lia | reflexivity].
@@ -230,6 +237,17 @@ Proof.
   eapply cov_frame; [| |exact C']; reflexivity.
 Qed.
 
+Lemma w_mark_idx s : idx (w_mark head s) = idx s.
+Proof. unfold w_mark. destruct (wrapped s); [apply w_body_idx | reflexivity]. Qed.
+Lemma w_mark_written s : status s <> 0%Z -> status (w_mark head s) <> 0%Z.
+Proof. unfold w_mark. intros H. destruct (wrapped s); [apply w_body_nz | exact H]. Qed.
+Lemma cov_w_mark sigma f s j : cov sigma f s j ->
+  exists j', cov sigma f (w_mark head s) j' /\ same_ctl j j'.
+Proof.
+  intros C. unfold w_mark. destruct (wrapped s); [apply cov_w_body; exact C|].
+  exists j. split; [exact C | apply same_ctl_refl].
+Qed.
+
 Lemma same_ctl_trans a b c : same_ctl a b -> same_ctl b c -> same_ctl a c.
 Proof. intros (A1 & A2 & A3 & A4) (B1 & B2 & B3 & B4). repeat split; congruence. Qed.
 
@@ -256,7 +274,9 @@ Proof.
   intros V. unfold rendering. destruct h as [acts ret| |]; cbn [ret_of]; try reflexivity.
   destruct ret as [|v r]; [reflexivity|].
   destruct (rh s) as [k|]; [apply custom_rh_nz|]. destruct apprh as [k|]; [apply custom_rh_nz|].
-  apply render_nz. cbn [valid_handler] in V. apply andb_prop in V as [_ V]. exact V.
+  assert (R : ops_nz (render (v :: r)) = true)
+    by (apply render_nz; cbn [valid_handler] in V; apply andb_prop in V as [_ V]; exact V).
+  destruct (wrapped s); [apply mark_ops_nz|]; exact R.
 Qed.
 
 (* ---------- the body of a scripted handler ---------- *)
@@ -307,7 +327,7 @@ Proof.
   - destruct Pre as ((j1 & C1 & R1) & Hi & Hn & Fu). split; [|intros; exact I].
     cbn [exec post_body]. exists j1. split; [assumption|]. repeat split; auto.
   - cbn [acts_nz forallb] in V. apply andb_prop in V as [Va V].
-    destruct a as [c|bs| | |v|k|]; unfold body_goal; cbn [exec nopanic count_next].
+    destruct a as [c|bs| | |v|k| |]; unfold body_goal; cbn [exec nopanic count_next].
     + (* WriteHeader *)
       assert (Hc : c <> 0%Z) by (intros ->; discriminate).
       apply (simple_step (w_header c)); auto.
@@ -379,6 +399,9 @@ Proof.
       intros sg fr j Cj. exists j. split; [exact Cj | apply same_ctl_refl].
     + (* a sub-request: another request altogether *)
       apply (simple_step (fun s => s)); auto.
+      intros sg fr j Cj. exists j. split; [exact Cj | apply same_ctl_refl].
+    + (* the http.ResponseWriter is re-mapped *)
+      apply (simple_step set_wrapped); auto.
       intros sg fr j Cj. exists j. split; [exact Cj | apply same_ctl_refl].
 Qed.
 End Body.
@@ -500,13 +523,15 @@ Proof.
       { unfold stopb, stop in *. cbn [idx set_idx cancelled status]. destruct ST2 as [?|[?|?]]; auto. left. lia. }
       repeat split; auto; try lia.
     + destruct P as (j2 & C2 & B2 & M2 & PV2). subst s1. cbn [idx set_idx] in M2. fold i in M2.
-      set (s3 := w_body head (CPanicPage v dev) (w_header 500 s2)).
-      assert (I3 : idx s3 = idx s2) by (subst s3; rewrite w_body_idx, w_header_idx; reflexivity).
+      set (s3 := w_body head (CPanicPage v dev) (w_mark head (w_header 500 s2))).
+      assert (I3 : idx s3 = idx s2) by (subst s3; rewrite w_body_idx, w_mark_idx, w_header_idx; reflexivity).
       assert (SB : stopb s3) by (unfold stopb; right; right; apply w_body_nz).
       destruct (cov_w_header sigma (S (idx s2)) s2 j2 500 ltac:(discriminate) C2) as (j3 & C3 & S3).
-      destruct (cov_w_body sigma (S (idx s2)) _ j3 (CPanicPage v dev) C3) as (j4 & C4 & S4).
+      destruct (cov_w_mark sigma (S (idx s2)) _ j3 C3) as (j3' & C3' & S3').
+      destruct (cov_w_body sigma (S (idx s2)) _ j3' (CPanicPage v dev) C3') as (j4 & C4 & S4).
       exists j4. rewrite I3. split; [exact C4|].
-      assert (PV4 : pv_ok j4) by (eapply cov_same_ctl_pv; [exact S4|]; eapply cov_same_ctl_pv; [exact S3 | exact PV2]).
+      assert (PV4 : pv_ok j4)
+        by (eapply cov_same_ctl_pv; [exact S4|]; eapply cov_same_ctl_pv; [exact S3'|]; eapply cov_same_ctl_pv; [exact S3 | exact PV2]).
       repeat split; auto; try lia.
   - (* a handler whose parameters cannot be resolved *)
     split.
@@ -840,16 +865,18 @@ Proof.
 Qed.
 End Meaning.
 
-(* What Recovery sends: 500 unless a status had been sent, the panic detail only in development. *)
+(* What Recovery sends: 500 unless a status had been sent, the panic detail only in development; through
+   the http.ResponseWriter found in the injector (the marker shows a re-mapped one was used). *)
 Lemma recovery_response head dev v s :
-  let s' := w_body head (CPanicPage v dev) (w_header 500 s) in
+  let s' := w_body head (CPanicPage v dev) (w_mark head (w_header 500 s)) in
   status s' = (if Z.eqb (status s) 0 then 500%Z else status s) /\
-  (head = false -> body s' = body s ++ [CPanicPage v dev]) /\
+  (head = false -> body s' = body s ++ (if wrapped s then [CBytes marker] else []) ++ [CPanicPage v dev]) /\
   idx s' = idx s.
 Proof.
-  cbn. unfold w_body, w_header. destruct (Z.eqb (status s) 0) eqn:E; cbn; rewrite ?E; cbn.
-  - destruct head; cbn; repeat split; auto; intros; discriminate.
-  - destruct head; cbn; rewrite ?E; cbn; repeat split; auto; intros; discriminate.
+  cbv zeta. destruct s as [i stt b c t r w]. unfold w_body, w_mark, w_body, w_header. cbn [status wrapped].
+  destruct (Z.eqb stt 0) eqn:E; cbn [wrapped status]; destruct w; cbn [status]; rewrite ?E; cbn [Z.eqb status];
+    destruct head; cbn [idx status body]; rewrite ?E; cbn [idx status body Z.eqb app]; rewrite <- ?app_assoc;
+    repeat split; auto; intros; try discriminate.
 Qed.
 
 (* return values that render to nothing leave the response untouched, so the chain goes on *)
@@ -859,7 +886,13 @@ Proof. intros ->. reflexivity. Qed.
 (* a ReturnHandler mapped in the request scope is the one used, then the application's, then the table *)
 Lemma rendering_nearest apprh s acts v r :
   rendering apprh s (HNormal acts (v :: r)) =
-  match rh s with Some k => custom_rh k | None => match apprh with Some k => custom_rh k | None => render (v :: r) end end.
+  match rh s with
+  | Some k => custom_rh k
+  | None => match apprh with
+            | Some k => custom_rh k
+            | None => if wrapped s then mark_ops (render (v :: r)) else render (v :: r)
+            end
+  end.
 Proof. reflexivity. Qed.
 
 Lemma rendering_nothing_returned apprh s acts : rendering apprh s (HNormal acts []) = [].
